@@ -46,7 +46,8 @@ def build(flavour, targets, quiet=True):
         env["ASAN_OPTIONS"] = "detect_leaks=0"
         env["UBSAN_OPTIONS"] = "halt_on_error=0"
         stamp = os.path.join(bdir, ".configured")
-        cfg_key = fl["flags"] + "|" + VERIF
+        # the harness targets are chosen at configure time from the sources that exist: a new source file means a new configuration
+        cfg_key = fl["flags"] + "|" + VERIF + "|" + ",".join(sorted(f for f in os.listdir(os.path.join(VERIF, "harness")) if f.endswith((".cpp", ".c"))))
         if not os.path.exists(os.path.join(bdir, "build.ninja")) or not os.path.exists(stamp) or open(stamp).read() != cfg_key:
             cmd = ["cmake", "-G", "Ninja", "-S", REPO, "-B", bdir, "-DBUILD_TESTING=OFF", "-DCMAKE_BUILD_TYPE=None",
                    f"-DCMAKE_C_COMPILER={fl['cc']}", f"-DCMAKE_CXX_COMPILER={fl['cxx']}",
